@@ -90,6 +90,18 @@ def rule_share(ctx):
             ctx.ob("C15.SHARE", upd[0], "the per-user throttle is stored only when absent", guarded and bool(stores), "the per-user throttle is overwritten at every login", construct="share:user store guard")
         ok = isinstance(upc, ast.Call) and is_method_call(upc, "from_limits")
         ctx.ob("C15.SHARE", upd[0], "user_per_connection is a fresh object per login", ok, f"user_per_connection is `{src(upc) if upc is not None else None}`, not a fresh throttle", construct="share:user_per_connection")
+    # the per-user table only grows: removing an entry while other connections of that user still hold the old throttle splits the user-level limit
+    for x in ast.walk(p.trees["server.py"]):
+        rm = None
+        if isinstance(x, ast.Call) and isinstance(x.func, ast.Attribute) and x.func.attr in ("pop", "popitem", "clear") and last_attr(x.func.value) == "throttle_per_user":
+            rm = x
+        if isinstance(x, ast.Delete) and any(isinstance(t, ast.Subscript) and last_attr(t.value) == "throttle_per_user" for t in x.targets):
+            rm = x
+        if isinstance(x, ast.Assign) and any(isinstance(t, ast.Attribute) and t.attr == "throttle_per_user" for t in x.targets) and p.fn_of(x) != "Server.__init__":
+            rm = x
+        if rm is not None:
+            ctx.fail("C15.SHARE", rm, f"{p.fn_of(rm)}: an entry of the per-user throttle table is removed/reset (`{src(rm)[:50]}`): connections of that user that are still open keep the old "
+                     "throttle object while the next login creates a new one, so the user-level limit no longer bounds their sum", construct=f"{p.fn_of(rm)}:throttle_per_user removed")
     # data streams share the control stream's throttle objects
     n_data = 0
     for verb in ("pasv", "epsv"):
